@@ -25,7 +25,7 @@ def make_body(k, max_stage):
         sw1 = ctx.choice('first_component_of_stage1', list(range(1, k + 1)))
         sw2 = ctx.choice('first_component_of_stage2', list(range(sw1, k + 1))) if max_stage >= 2 and sw1 < k else k
         stages = [0 if i < sw1 else (1 if i < sw2 else 2) for i in range(k)]
-        n_rep, via_var = ctx.choice('replicas', [(1, False), (2, False), (3, False), (2, True)])
+        n_rep, via_var = ctx.choice('replicas', [(1, False), (2, False), (3, False), (2, True), (12, True)])
         rel_spelling = ctx.flag('relative_spelling_in_same_stage')
         files = ctx.flag('references_with_file_paths')
         comps = []
@@ -168,7 +168,7 @@ def main(tier, seed, only=None):
                      'WorkflowGraph.graphFromFlowIR', 'FlowIRConcrete.replicate', 'FlowIR.propagate_replicate', 'FlowIR.apply_replicate',
                      'WorkflowGraph._createCompleteGraph', 'WorkflowGraph.configurationForNode']
     rep.bounds = {'E2': 'one symbolic producer name <= 2 chars (file path <= 3) against A / AB, both roles, both spellings, replica 0..2 of 2..3',
-                  'E1': '%d components over <= %d stages, every forward edge subset, aggregate flags, replicate 1..3 literal or 2 via variable, '
+                  'E1': '%d components over <= %d stages, every forward edge subset, aggregate flags, replicate 1..3 literal, 2 or 12 via variable, '
                         'relative/absolute spelling and file paths (per document)' % (k, 2 if tier == 'quick' else 3), 'max_paths': max_paths,
                   'per_condition_timeout_s': timeout}
     rep.outside = ['names longer than the bound in the textual layer', 'more than one replication source', 'array-variable indexing with %(replica)s',
